@@ -27,6 +27,7 @@ type c15Params struct {
 	Duration int    `json:"duration_ms"`
 	Gate     string `json:"gate,omitempty"`
 	Workers  int    `json:"workers"`
+	Shared   bool   `json:"shared_group,omitempty"` // barrage: all query events of a round on resources of one group
 }
 
 func init() {
@@ -58,6 +59,10 @@ func init() {
 				bs = append(bs, core.Batch{Name: fmt.Sprintf("barrage-w%d", w), TimeoutS: 300,
 					Params: core.Params(c15Params{Kind: "barrage", Events: 2, Duration: 5, Rounds: tierPick(tier, 40, 300), Workers: w})})
 			}
+			// twelve query events at a time on resources sharing a group: twelve listener goroutines
+			// pass requests on to one group's work queue
+			bs = append(bs, core.Batch{Name: "barrage-shared-group", TimeoutS: 300,
+				Params: core.Params(c15Params{Kind: "barrage", Events: 12, Duration: 20, Rounds: tierPick(tier, 15, 120), Workers: 8, Shared: true})})
 			bs = append(bs, core.Batch{Name: "failsub", TimeoutS: 120, Params: core.Params(c15Params{Kind: "failsub", Rounds: tierPick(tier, 40, 400)})})
 			for _, g := range []string{"late-request", "expiry-parked", "control"} {
 				bs = append(bs, core.Batch{Name: "directed-" + g, TimeoutS: 300, Params: core.Params(c15Params{Kind: "directed", Gate: g, Rounds: tierPick(tier, 6, 40), Duration: 15})})
@@ -172,7 +177,8 @@ func c15Behave(ev *c15Event, qr res.QueryRequest) {
 			qr.NotFound()
 		}
 	case "timeout-then-model":
-		qr.Timeout(3 * time.Second)
+		// every query event announces a duration of its own
+		qr.Timeout(time.Duration(3000+7*ev.idx) * time.Millisecond)
 		if ev.typ == "model" {
 			qr.Model(map[string]interface{}{"a": 1})
 		} else {
@@ -590,13 +596,29 @@ func c15Round(c *core.Ctx, env *c15Env, p c15Params, round int, gate string) boo
 		for _, rq := range reqs {
 			resp := 0
 			var last natsenv.WireMsg
+			var pres []string
 			for _, m := range byInbox[rq.inbox] {
 				if !isPreResponse(m.Data) {
 					resp++
 					last = m
+				} else {
+					pres = append(pres, string(m.Data))
 				}
 			}
 			d := copyDesc(desc)
+			// a pre-response carries what this request's callback announced, nothing else
+			wantPre := ""
+			if ev.behaviour == "timeout-then-model" {
+				wantPre = fmt.Sprintf(`timeout:"%d"`, 3000+7*ev.idx)
+			}
+			for _, pr := range pres {
+				c.Obs("query_pre_responses", 1)
+				if pr != wantPre {
+					d["pre_responses"], d["want_pre_response"] = pres, wantPre
+					c.Violation("C15/pre-response-content", fmt.Sprintf("query request on %s (behaviour %s) got the pre-response %q, its callback announced %q", ev.rid, ev.behaviour, short(pr, 80), wantPre), d)
+					break
+				}
+			}
 			d["request"] = map[string]interface{}{"payload": rq.payload, "when": rq.when, "flush_seq": rq.flushSeq, "expire_seq": expSeq, "responses": resp}
 			c.Obs("requests_"+rq.when, 1)
 			before := expSeq != 0 && rq.flushSeq < expSeq
@@ -1136,7 +1158,19 @@ func c15Barrage(c *core.Ctx, env *c15Env, p c15Params, round int) bool {
 	expireBefore := sched.Count("query.nilqueued")
 	var evs []*c15Event
 	for i := 0; i < p.Events; i++ {
-		evs = append(evs, &c15Event{idx: i, rid: fmt.Sprintf("svc.qc.b%dn%d", round, i), typ: "collection", behaviour: "events"})
+		rid := fmt.Sprintf("svc.qc.b%dn%d", round, i)
+		if round%2 == 1 || p.Shared {
+			// the query events of the round belong to resources of one group: their callbacks,
+			// passed on by one listener goroutine per event, still run one at a time
+			rid = fmt.Sprintf("svc.shared.b%dn%d", round, i)
+		}
+		behaviour := "events"
+		if !(round%2 == 1 || p.Shared) {
+			// different groups: the callbacks of the events run side by side, each announcing a
+			// duration of its own before it replies
+			behaviour = "timeout-then-model"
+		}
+		evs = append(evs, &c15Event{idx: i, rid: rid, typ: "collection", behaviour: behaviour})
 	}
 	for _, ev := range evs {
 		if err := env.trigger(ev); err != nil {
@@ -1253,13 +1287,28 @@ func c15Barrage(c *core.Ctx, env *c15Env, p c15Params, round int) bool {
 	env.ne.GW.Flush()
 	time.Sleep(5 * time.Millisecond)
 	onWire := map[string]int{}
+	preOn := map[string][]string{}
 	for _, m := range env.ne.Wire()[wireStart:] {
 		if strings.HasPrefix(m.Subject, "_INBOX.") && !isPreResponse(m.Data) {
 			onWire[m.Subject]++
+		} else if strings.HasPrefix(m.Subject, "_INBOX.") {
+			preOn[m.Subject] = append(preOn[m.Subject], string(m.Data))
 		}
 	}
 	for _, st := range all {
 		st.got = onWire[st.inbox]
+		wantPre := ""
+		if st.ev.behaviour == "timeout-then-model" {
+			wantPre = fmt.Sprintf(`timeout:"%d"`, 3000+7*st.ev.idx)
+		}
+		for _, pr := range preOn[st.inbox] {
+			c.Obs("query_pre_responses", 1)
+			if pr != wantPre {
+				c.Violation("C15/pre-response-content", fmt.Sprintf("query request on %s got the pre-response %q, its callback announced %q (the callbacks of %d query events run side by side)", st.ev.rid, short(pr, 80), wantPre, len(evs)),
+					map[string]interface{}{"rid": st.ev.rid, "pre_responses": preOn[st.inbox], "want": wantPre})
+				return true
+			}
+		}
 	}
 	for _, st := range all {
 		c.Eval(1)
